@@ -22,6 +22,7 @@ Cls_Plain == {ClsOf(<<"plain", "plain">>)}
 Cls_Mix == {ClsOf(<<"plain", "under">>), ClsOf(<<"private", "plain">>), ClsOf(<<"private", "space">>),
             ClsOf(<<"dunder", "private">>), ClsOf(<<"keyword", "const">>), ClsOf(<<"nonascii", "dot">>),
             ClsOf(<<"space", "digit">>), ClsOf(<<"digit", "plain">>), ClsOf(<<"dot", "keyword">>)}
+Cls_Two == {ClsOf(<<"plain", "under">>), ClsOf(<<"private", "space">>)}
 Cls_Private == {ClsOf(<<"private", "plain">>), ClsOf(<<"private", "space">>)}
 Cls_All == [Names -> NameClasses]
 
